@@ -20,6 +20,7 @@ pub fn generate(prop: &str, run_seed: u64, _index: u64, tier: Tier) -> Trace {
     let kind = match prop {
         "C15" => 3 + rc.below(2),
         "C16" => rc.weighted(&[5, 3, 3, 0, 0]) as u64,
+        "C14" => 2,
         _ => rc.below(5),
     };
     t.set_param("kind", kind);
@@ -52,6 +53,15 @@ pub fn generate(prop: &str, run_seed: u64, _index: u64, tier: Tier) -> Trace {
         for k in [K_SPLIT_OFF, K_SPLIT_AT, K_PARTITION, K_MERGE_BACK, K_NOISE, K_PART_OP, K_CONVERT, K_MAP_IN_PLACE, K_INTO_BOX] {
             w[k as usize] *= 4;
         }
+    }
+    if prop == "C14" {
+        w[K_CLAIM_OPS as usize] = 12;
+        for k in [K_PUSH, K_RESERVE, K_EXTEND, K_EXT_SLICE, K_APPEND, K_NOISE, K_INSERT, K_RESIZE] {
+            w[k as usize] *= 2;
+        }
+    } else if rw.chance(1, 4) {
+        // claims also interleave with the other properties' workloads (BumpVec driver only)
+        w[K_CLAIM_OPS as usize] = 3;
     }
     if prop == "C15" {
         for k in [K_FINALIZE, K_HELPER, K_DROP, K_EXTEND, K_EXT_SLICE, K_PUSH] {
